@@ -397,6 +397,12 @@ func (f *Frame) callBuiltin(i *ssa.Call, b *ssa.Builtin, args []Val, st *State, 
 			_, _, ln := c.eng.mapKeys(m)
 			v := tv("(select "+c.heapTerm(st, ln)+" "+x.T+")", "Int")
 			c.assume(r, "(<= 0 "+v.T+")")
+			// cardinality: a map of positive length has a key; a map of length 0 has none
+			dom, _, _ := c.eng.mapKeys(m)
+			ks := c.eng.sortOf(m.Key())
+			d := "(select " + c.heapTerm(st, dom) + " " + x.T + ")"
+			c.assume(r, "(=> (= "+v.T+" 0) (forall ((k! "+ks+")) (! (not (select "+d+" k!)) :pattern ((select "+d+" k!)))))")
+			c.assume(r, "(=> (< 0 "+v.T+") (exists ((k! "+ks+")) (select "+d+" k!)))")
 			return v
 		}
 		c.errorf("len of unsupported value")
